@@ -1,7 +1,7 @@
 (* Typedproof.v — typed values survive set / get, per carrier; what is written is in the lexical space of its type. *)
 From Coq Require Import List ZArith NArith Lia Bool Arith ZifyBool.
 Import ListNotations.
-Require Import Codec Codecproof CodecDurproof CodecDateproof Typed.
+Require Import Codec Codecproof CodecDurproof CodecDateproof Typed Typeddecproof.
 
 (* ---- small facts *)
 Lemma dtime_eqb_refl d : dtime_eqb d d = true.
@@ -107,8 +107,7 @@ Proof.
   destruct v; try discriminate; intros _ Hd; cbn [num_of py_str_num in_domain] in *.
   - eexists. split; [reflexivity | apply dec_of_text_print_Z].
   - unfold float_repr_ok in Hd. destruct (dec_of_text r) as [d|]; [|discriminate]. eauto.
-  - unfold dec_text_roundtrips in Hd. destruct (dec_of_text (str_of_dec d)) as [d'|]; [|discriminate].
-    apply dec_eqb_eq in Hd. subst d'. eauto.
+  - eexists. split; [reflexivity | apply dec_text_roundtrip_lemma].
 Qed.
 (* ... and starts with a digit, a sign or a dot, never with t or f *)
 Lemma dec_of_text_not_tf s d : dec_of_text s = Some d -> not_tf s = true.
